@@ -143,6 +143,9 @@ type callArgs struct {
 }
 
 func nodeIDs(v []int64) []osm.NodeID {
+	if v == nil {
+		return nil // a nil id list reaches the library as nil
+	}
 	out := make([]osm.NodeID, len(v))
 	for i, x := range v {
 		out[i] = osm.NodeID(x)
@@ -150,6 +153,9 @@ func nodeIDs(v []int64) []osm.NodeID {
 	return out
 }
 func wayIDs(v []int64) []osm.WayID {
+	if v == nil {
+		return nil // a nil id list reaches the library as nil
+	}
 	out := make([]osm.WayID, len(v))
 	for i, x := range v {
 		out[i] = osm.WayID(x)
@@ -157,6 +163,9 @@ func wayIDs(v []int64) []osm.WayID {
 	return out
 }
 func relationIDs(v []int64) []osm.RelationID {
+	if v == nil {
+		return nil // a nil id list reaches the library as nil
+	}
 	out := make([]osm.RelationID, len(v))
 	for i, x := range v {
 		out[i] = osm.RelationID(x)
@@ -325,9 +334,9 @@ var impls = map[string]impl{
 	},
 	"NotesSearch": {
 		func(ds *osmapi.Datasource, a callArgs) outcome {
-			return manyNotes(ds.NotesSearch(a.ctx, a.c.Query, a.no...))
+			return manyNotes(ds.NotesSearch(a.ctx, a.c.query(), a.no...))
 		},
-		func(a callArgs) outcome { return manyNotes(osmapi.NotesSearch(a.ctx, a.c.Query, a.no...)) },
+		func(a callArgs) outcome { return manyNotes(osmapi.NotesSearch(a.ctx, a.c.query(), a.no...)) },
 	},
 
 	"User": {
